@@ -1293,6 +1293,9 @@ func (w *_mapAssembler) AssembleKey() datamodel.NodeAssembler {
 	w.curKey.finish = func() error {
 		// A key may be given once: refuse it when it is supplied again (for a struct key: when it is finished).
 		if w.valuesVal.MapIndex(w.curKey.val).IsValid() {
+			if w.curKey.val.Kind() == reflect.String {
+				return datamodel.ErrRepeatedMapKey{Key: basicnode.NewString(w.curKey.val.String())}
+			}
 			return datamodel.ErrRepeatedMapKey{Key: &_node{cfg: w.cfg, schemaType: w.schemaType.KeyType(), val: w.curKey.val}}
 		}
 		return nil
